@@ -44,6 +44,11 @@ def gen_section(rng, sc, start, role):
         data[h] = [[rng.choice(USERS), rng.choice(DATAS)] for _ in range(rng.randint(1, 3))]
     sec = {"known_networks": sub(nets, 3), "known_hosts": sub(hosts, 3), "controlled_hosts": ctrl,
            "known_services": {}, "known_data": data, "known_blocks": {}}
+    if start and rng.random() < 0.2:
+        # the documented format lists six parts for a start position; firewall blocks are not part of what an agent knows at
+        # the start and the game never reads that key.  A file without it may be rejected when the game starts (not judged);
+        # if the game starts with it, it must use what the file states
+        del sec["known_blocks"]
     if not start:
         sec["description"] = "goal text"
         if rng.random() < 0.3:
@@ -162,6 +167,9 @@ def main(tier):
                 m = drv.ask({"op": "config", "cfg": cfg, **val})
                 sim = Sim(cfg)
                 try:
+                    if (sim.startup_error is not None or sim.server_cb is None) and any("known_blocks" not in cfg["coordinator"]["agents"][r]["start_position"] for r in ("Attacker", "Defender")):
+                        stats["incomplete_rejected"] = stats.get("incomplete_rejected", 0) + 1
+                        continue
                     if sim.startup_error is not None or sim.server_cb is None:
                         V.fail("startup", f"a configuration built from the documented keys is not accepted: {sim.startup_error!r}", {"config": cfg})
                         continue
@@ -282,6 +290,7 @@ def main(tier):
             CC.settings_of = settings_from_file
             try:
                 CC.run_sessions(drv, rng, tabs, on_fail, cstats, 70 if tier == "quick" else 700, 40, {"outcome_mix": True, "leave": 0.03, "bad": 0.02, "early_reset": 0.08, "roles": ["Attacker", "Attacker", "Defender"]})
+                CC.directed_late_joiner(drv, rng, tabs, on_fail, cstats, 10 if tier == "quick" else 150)
             finally:
                 CC.settings_of = orig_settings_of
             # a disagreement belongs to C19 only if it disappears when the model takes its settings from what
@@ -320,7 +329,8 @@ def main(tier):
            "samples": stats["samples"][:1], "joins": stats["joins"], "wildcard_resolutions": stats["wildcards"], "absent_optional_keys": stats["absent_keys"],
            "session_events": cstats.get("events", 0), "proof_failures": V.proof_failures}
     write_evidence("C19", tier, "proof", cov, T.s(), nviol,
-                   ["sections list all six documented keys (a section with a missing key is outside the documented format)",
+                   ["sections list the documented keys; the only omission generated is known_blocks of a start position (never read by the game): a file without it may be refused at start-up, "
+                    "but once the game runs with it the listed hosts, networks and data must be in the initial view",
                     "known_services / known_blocks of a start position or goal are only required to be accepted (they are not in the property's list)",
                     "values of the documented types only (integers for max_steps/rewards/required_players, booleans for switches)"])
     return code
